@@ -33,6 +33,9 @@ pub struct Scn {
     pub threshold: u32,
     pub server: bool,
     pub fallback: bool,
+    /// the fallback can only answer requests with an even id and returns an error for the others
+    #[serde(default)]
+    pub picky: bool,
     pub ops: Vec<Op>,
 }
 
@@ -109,6 +112,23 @@ fn fallback(r: &Req, _e: sentinel_core::Error) -> Result<Resp, BoxError> {
     Ok(Resp::Fallback(r.id))
 }
 
+#[derive(Debug)]
+pub struct FallbackErr(u32);
+impl std::fmt::Display for FallbackErr {
+    fn fmt(&self, f: &mut std::fmt::Formatter<'_>) -> std::fmt::Result {
+        write!(f, "fallback cannot answer request {}", self.0)
+    }
+}
+impl std::error::Error for FallbackErr {}
+
+fn picky_fallback(r: &Req, _e: sentinel_core::Error) -> Result<Resp, BoxError> {
+    if r.id % 2 == 0 {
+        Ok(Resp::Fallback(r.id))
+    } else {
+        Err(Box::new(FallbackErr(r.id)))
+    }
+}
+
 fn noop_waker() -> Waker {
     fn clone(_: *const ()) -> RawWaker {
         RawWaker::new(std::ptr::null(), &VT)
@@ -140,7 +160,7 @@ impl Prop for C20 {
         }
     }
     fn rule_text(&self) -> &'static str {
-        "seeded scenarios: 10-50 ops over requests through sentinel_tower::SentinelService (server and client role, with and without fallback) around a scripted inner service whose outcome per call is {ready Ok, ready Err, Pending x j then Ok, Pending x j then Err}, an isolation rule of threshold 1..3 on the extracted resource, and a hand-written executor that polls the in-flight request futures one at a time in PRNG order with a no-op waker; dropping a future before completion is explored for the client role and counted separately (not a verdict). After every op: inner service called exactly once iff the reference isolation model admits, rejected requests yield fallback or error, completed requests (Ok or Err) release their admission, current_concurrency equals the reference. Non-trivial = an admitted request that ended with an inner error, a rejection and a later admission; distinct = distinct trace hash."
+        "seeded scenarios: 10-50 ops over requests through sentinel_tower::SentinelService (server and client role, without fallback, with a fallback that answers, and with one that returns an error for odd request ids) around a scripted inner service whose outcome per call is {ready Ok, ready Err, Pending x j then Ok, Pending x j then Err}, an isolation rule of threshold 1..3 on the extracted resource, and a hand-written executor that polls the in-flight request futures one at a time in PRNG order with a no-op waker; dropping a future before completion is explored for the client role and counted separately (not a verdict). After every op: inner service called exactly once iff the reference isolation model admits, rejected requests yield fallback or error, completed requests (Ok or Err) release their admission, current_concurrency equals the reference. Non-trivial = an admitted request that ended with an inner error, a rejection and a later admission; distinct = distinct trace hash."
     }
     fn components(&self) -> Value {
         json!({"real": ["middleware/tower: SentinelService::call, deal_with_sentinel!; sentinel-core: EntryBuilder, slot chain, isolation slot, resource node concurrency"],
@@ -162,7 +182,7 @@ impl Prop for C20 {
                 _ => ops.push(Op::Adv { ms: *rng.pick(&[0u64, 1, 10, 500, 2000]) }),
             }
         }
-        serde_json::to_value(Scn { epoch_ns, res: format!("c20_{:x}", rng.below(0xffffff)), threshold: rng.range(1, 3) as u32, server, fallback: rng.chance(1, 2), ops }).unwrap()
+        serde_json::to_value(Scn { epoch_ns, res: format!("c20_{:x}", rng.below(0xffffff)), threshold: rng.range(1, 3) as u32, server, fallback: rng.chance(1, 2), picky: rng.chance(1, 2), ops }).unwrap()
     }
 
     fn execute(&self, scenario: &Value, cov: &mut Cov) -> RunResult {
@@ -198,7 +218,7 @@ fn run(sc: &Scn, w: &mut World, tr: &mut Trace, cov: &mut Cov) -> Option<Violati
     let mut svc: SentinelService<Inner, Req> =
         SentinelService::new(inner, if sc.server { ServiceRole::Server } else { ServiceRole::Client }).with_extractor(extract);
     if sc.fallback {
-        svc = svc.with_fallback(fallback);
+        svc = svc.with_fallback(if sc.picky { picky_fallback } else { fallback });
     }
     let waker = noop_waker();
     let mut cx = Context::from_waker(&waker);
@@ -268,7 +288,14 @@ fn run(sc: &Scn, w: &mut World, tr: &mut Trace, cov: &mut Cov) -> Option<Violati
                                 _ => return Some(Violation::new(format!("C20/{}/wrong-output-for-admitted-request", role), i, format!("request {} (inner ok={}): output {:?}", f.id, f.ok, out.as_ref().map_err(|e| e.to_string())))),
                             }
                         } else {
-                            match (&out, sc.fallback) {
+                            let fallback_answers = sc.fallback && !(sc.picky && f.id % 2 == 1);
+                            match (&out, fallback_answers) {
+                                (Err(e), false) if sc.fallback => {
+                                    if !e.to_string().starts_with("fallback cannot answer") {
+                                        return Some(Violation::new(format!("C20/{}/wrong-output-for-rejected-request", role), i, format!("request {}: the fallback's error was replaced by {:?}", f.id, e.to_string())));
+                                    }
+                                    cov.hit("rejected_and_fallback_returns_error")
+                                }
                                 (Ok(Resp::Fallback(x)), true) if *x == f.id => cov.hit("rejected_with_fallback"),
                                 (Err(_), false) => cov.hit("rejected_with_error"),
                                 _ => return Some(Violation::new(format!("C20/{}/wrong-output-for-rejected-request", role), i, format!("request {} fallback={}: output {:?}", f.id, sc.fallback, out.as_ref().map_err(|e| e.to_string())))),
